@@ -74,7 +74,7 @@ func init() {
 		ID: "C20", Level: "exploration",
 		Rule: "small-scope enumeration: genesis with n=1..6 validators whose stakes are chosen so that subsets hold exactly 2/3, 2/3 +- 1 pip and random fractions of the voting power; every subset (all 2^n, plus competing second proposals and absent voters) votes for its own target height with one of the three governance transactions (network update, commission table, halt); the expected decision is computed in exact integers (3*support > 2*present power, largest support wins) from the stakes and the vote/presence sets the driver itself sent, and compared with what the node does at the target height (versions list/UpdateNetworkEvent, commission table in the export, VerifStopped()); votes for past heights and duplicate votes must be rejected; one evaluation = one voted height decided; distinct = (kind, n, relation of support to 2/3, competing?, absentees?)",
 		Assumptions: []string{"validator stakes are pure base-coin stakes fixed for the whole history (no payout inside it)", "an accepted halt only sets the stopped flag here (stub node); os.Exit is not exercised"},
-		Quick: 36, Thorough: 600, MinEval: 300, MinDistinct: 12,
+		Quick: 36, Thorough: 360, MinEval: 300, MinDistinct: 12,
 		Run: runC20,
 	})
 }
